@@ -72,7 +72,7 @@ def run_case(case, rep, record=True):
                 compare_reset([e.reset() for e in envs], envs, h, "reset")
                 h.mst = spec.initial()
                 continue
-            if op[0] in ("g", "o"):
+            if op[0] in ("g", "o", "b"):
                 continue
             act = h.choose(op)
             if act.kind in ("exploit", "privesc") and act.name not in ok_names:
